@@ -470,20 +470,18 @@ func mFailure(sc mScenario, c mCase, status int, insts []instant) *failure {
 	} else {
 		key += ":not-last-route"
 	}
-	if c.Stage > 0 {
-		key += ":after-reload"
-		// would the configuration that ran before the reload have given this (wrong) answer on the same path?
-		prev := sc.Cfgs[c.Stage-1]
-		for pi, prt := range prev.Routes {
-			if prt.Name == cfg.Routes[c.Route].Name && mRefAccept(prev, pi, c.Signer, tsNs) == accepted {
-				key += ":as-before-reload"
-			}
-		}
-	}
 	msg := fmt.Sprintf("configuration %s route %s (position %d of %d) signer %s signed-ts %s clock %s: status %d, the route's own lines say accept=%v",
 		cfg, mNames[cfg.Routes[c.Route].Name].Route, c.Route+1, len(cfg.Routes), mSignerName(c.Signer), insts[c.Ts].Label, insts[c.Clock].Label, status, want)
 	if c.Stage > 0 {
-		msg += fmt.Sprintf("; reloaded from %s", sc.Cfgs[c.Stage-1])
+		key += ":after-reload"
+		prev := sc.Cfgs[c.Stage-1]
+		msg += fmt.Sprintf("; reloaded from %s", prev)
+		// a hint for the reader, not part of the key: is this the answer the configuration before the reload gave on this path?
+		for pi, prt := range prev.Routes {
+			if prt.Name == cfg.Routes[c.Route].Name && mRefAccept(prev, pi, c.Signer, tsNs) == accepted {
+				msg += " (which answered this request the same way on this path)"
+			}
+		}
 	}
 	return &failure{key, msg}
 }
@@ -491,34 +489,35 @@ func mFailure(sc mScenario, c mCase, status int, insts []instant) *failure {
 // ---- enumeration ----------------------------------------------------------------
 
 // mScenarios: the scenarios of a tier (thorough is a superset of quick).
-//   - no reload: pools x {2,3} routes x every assignment of kinds. Quick: pools
-//     adjacent+nested, the 15 ascending kinds, odd positions listed descending.
-//     Thorough: all 6 pools; for 2 routes every listing order of every subset
-//     (31 kinds), for 3 routes the quick rule.
+//   - no reload: pools x {2,3} routes x every assignment of kinds (the 15
+//     ascending kinds, odd positions listed descending). Quick: 2 routes on
+//     pools adjacent+nested, 3 routes on pool nested. Thorough: 2 and 3 routes on
+//     all 6 pools, and for 2 routes every listing order of every subset (31 kinds).
 //   - reload A -> B: every ordered pair (A, B) of the reload family (1..3 routes,
 //     every selection and order of route names, alphabet kinds), for the pool
-//     pairs listed; quick: 2 alphabet kinds, (adjacent,adjacent) and
-//     (adjacent,nested); thorough: 3 kinds for (adjacent,adjacent), 2 kinds for
-//     (nested,adjacent), (overlap,gap) and the quick pairs, and A -> B -> A for the quick family.
+//     pairs listed; quick: 2 alphabet kinds, A on pool adjacent, B on pool nested
+//     (the reload changes the windows of the ids as well); thorough: also 3 kinds
+//     for (adjacent,adjacent), 2 kinds for (nested,adjacent), (overlap,gap),
+//     (adjacent,adjacent) and A -> B -> A for the quick family.
 func mScenarios(r *runner.Run) (base, reload []mScenario) {
-	pools := []int{0, 1}
-	if r.Thorough() {
-		pools = []int{0, 1, 2, 3, 4, 5}
-	}
 	asc := mKinds(false)
-	for _, n := range []int{2, 3} {
-		for _, p := range pools {
-			for _, cfg := range mBaseConfigs(p, n, asc, true) {
-				base = append(base, mScenario{[]mConfig{cfg}})
-			}
+	add := func(pool, n int, kinds []mKind, parity bool) {
+		for _, cfg := range mBaseConfigs(pool, n, kinds, parity) {
+			base = append(base, mScenario{[]mConfig{cfg}})
 		}
 	}
+	add(0, 2, asc, true)
+	add(1, 2, asc, true)
+	add(1, 3, asc, true)
 	if r.Thorough() {
+		add(0, 3, asc, true)
+		for p := 2; p < len(mPools); p++ {
+			add(p, 2, asc, true)
+			add(p, 3, asc, true)
+		}
 		all := mKinds(true)
-		for _, p := range pools {
-			for _, cfg := range mBaseConfigs(p, 2, all, false) {
-				base = append(base, mScenario{[]mConfig{cfg}})
-			}
+		for p := range mPools {
+			add(p, 2, all, false)
 		}
 	}
 	pairs := func(pa, pb, k int, back bool) {
@@ -533,10 +532,10 @@ func mScenarios(r *runner.Run) (base, reload []mScenario) {
 			}
 		}
 	}
-	pairs(0, 0, 2, false)
 	pairs(0, 1, 2, false)
 	if r.Thorough() {
 		pairs(0, 0, 3, false)
+		pairs(0, 0, 2, false)
 		pairs(1, 0, 2, false)
 		pairs(2, 4, 2, false)
 		pairs(0, 1, 2, true)
@@ -557,6 +556,7 @@ func multiInbound(t *testing.T, r *runner.Run, deadline time.Time, workers int) 
 			return
 		}
 		var acc, rej, otherRej, ownAcc int64
+		classes := map[string]bool{}
 		for ci, c := range cases {
 			st := status[ci]
 			if st != 202 && st != 401 {
@@ -587,13 +587,16 @@ func multiInbound(t *testing.T, r *runner.Run, deadline time.Time, workers int) 
 			if c.Stage > 0 {
 				stage = "reloaded"
 			}
-			r.Distinct(fmt.Sprintf("min|%s|n%d|%s|%s|%s|%s|%d", mPools[cfg.Pool].Name, len(cfg.Routes), pos, stage, class, insts[c.Ts].Label, st))
+			classes[fmt.Sprintf("min|%s|n%d|%s|%s|%s|%s|%d", mPools[cfg.Pool].Name, len(cfg.Routes), pos, stage, class, insts[c.Ts].Label, st)] = true
 			if class == "version-of-another-route" || class == "own-version" {
 				samples.keep(fmt.Sprintf("min:%s:%d", stage, st), i, func() any {
 					return map[string]any{"part": "multi-route inbound", "configuration": cfg.String(), "stage": stage, "route": mNames[cfg.Routes[c.Route].Name].Route,
 						"signer": mSignerName(c.Signer), "signer_is": class, "signed_ts": insts[c.Ts].Label, "status": st}
 				})
 			}
+		}
+		for k := range classes {
+			r.Distinct(k)
 		}
 		r.Add("evaluations", int64(len(cases)))
 		r.Add("min_evaluations", int64(len(cases)))
